@@ -1,32 +1,12 @@
 //! seqio_verif <ID> quick|thorough        run the check for one property
 //! seqio_verif <ID> replay <file>         re-run one replay file
 
-mod alloc;
-mod driver;
-mod engine;
-mod gen;
-mod interp;
-mod light;
-mod model;
-mod policy;
-mod props;
-mod source;
-mod util;
 
-use engine::Tier;
+use seqio_verif::engine::{self, Tier};
+use seqio_verif::{alloc, props};
 
 #[global_allocator]
 static GLOBAL: alloc::Counting = alloc::Counting;
-
-pub fn interp_livelock(src: &source::SharedLog, f: model::Format) -> engine::CheckResult {
-    if src.borrow().budget_exceeded {
-        return Err(engine::Failure::new(
-            format!("{}/livelock-step-budget", light::fmt_name(f)),
-            format!("the reader made more than the budgeted number of source calls ({}): livelock", src.borrow().calls.len()),
-        ));
-    }
-    Ok(())
-}
 
 fn main() {
     let args: Vec<String> = std::env::args().collect();
@@ -35,6 +15,10 @@ fn main() {
         std::process::exit(2);
     }
     engine::install_panic_hook();
+    if args[1] == "decode-artifact" {
+        // seqio_verif decode-artifact <target> <artifact file> : writes a replay JSON, prints its path
+        std::process::exit(decode_artifact(&args[2], args.get(3).map(|s| s.as_str()).unwrap_or("")));
+    }
     let id = args[1].as_str();
     let tier = match args[2].as_str() {
         "quick" => Tier::Quick,
@@ -75,4 +59,40 @@ fn main() {
         }
     };
     std::process::exit(code);
+}
+
+fn decode_artifact(target: &str, file: &str) -> i32 {
+    let data = match std::fs::read(file) {
+        Ok(d) => d,
+        Err(e) => {
+            eprintln!("cannot read {}: {}", file, e);
+            return 2;
+        }
+    };
+    let (id, sub, case) = match seqio_verif::fuzzdec::artifact_to_case(target, &data) {
+        Some(x) => x,
+        None => {
+            eprintln!("unknown target {}", target);
+            return 2;
+        }
+    };
+    let res = engine::guarded(|| seqio_verif::fuzzdec::run_target(target, &data));
+    let (sig, msg) = match &res {
+        Ok(()) => ("none".to_string(), "the oracle holds on this input".to_string()),
+        Err(f) => (f.sig.clone(), f.msg.clone()),
+    };
+    let v = serde_json::json!({"property": id, "sub": sub, "signature": sig, "message": msg, "case": case, "from_libfuzzer_artifact": file});
+    let dir = std::path::Path::new(engine::VERIF_DIR).join("failures");
+    let _ = std::fs::create_dir_all(&dir);
+    let name = std::path::Path::new(file).file_name().map(|s| s.to_string_lossy().to_string()).unwrap_or_default();
+    let path = dir.join(format!("{}-{}-{}.json", id, target, name));
+    if std::fs::write(&path, serde_json::to_string_pretty(&v).unwrap()).is_err() {
+        return 2;
+    }
+    println!("{} {} {}", id, if res.is_ok() { "holds" } else { "fails" }, path.display());
+    if res.is_ok() {
+        0
+    } else {
+        1
+    }
 }
